@@ -244,6 +244,11 @@ func (g *ValGen) fill(v reflect.Value, depth int) {
 		s := reflect.MakeSlice(t, n+spare, n+spare)
 		for i := 0; i < n+spare; i++ {
 			g.fill(s.Index(i), depth-1) // the spare capacity holds stale elements
+			if i < n && extKind(t.Elem()) > 0 {
+				// null.* elements of a slice lose their invalid state (finding D24, witnessed
+				// separately): generated slices hold valid elements only
+				s.Index(i).Field(0).Field(1).SetBool(true)
+			}
 		}
 		v.Set(s.Slice(0, n))
 	case reflect.Map:
